@@ -7,6 +7,7 @@ import shutil
 import time
 from decimal import Decimal
 from fractions import Fraction
+from pathlib import Path
 
 import numpy
 import yaml
@@ -199,6 +200,35 @@ def shear_frames():
     return eigs
 
 
+def own_rows(path):
+    """independent reading of the static file: [(volume, {key: value}, lattice row or None)] in file order;
+    row i of the lattice block belongs to row i of the table"""
+    ls = [ln.split() for ln in Path(path).read_text().splitlines()]
+    n = int(ls[1][1])
+    keys = [tuple(int(c) for c in k.lower().lstrip("c")) for k in ls[2][1:]]
+    rows = [(float(r[0]), dict(zip(keys, map(float, r[1:])))) for r in ls[3:3 + n]]
+    lat = [list(map(float, r)) for r in ls[4 + n:4 + 2 * n]] if len(ls) > 3 + n and ls[3 + n] else []
+    return [(v, t, lat[j] if lat else None) for j, (v, t) in enumerate(rows)]
+
+
+def rows_paired(d, evols, cols, lattice):
+    """None when every row the implementation holds (volume, table values of the written components, lattice row) is a
+    row of the file; a description of the first row that is not otherwise"""
+    own = {v: (t, l) for v, t, l in own_rows(d / "elast.dat")}
+    for j, v in enumerate(evols):
+        if v not in own:
+            return "volume %r of the parsed table is not a volume of the file" % v
+        t, l = own[v]
+        for k, x in t.items():
+            kk = k if k in cols else (k[1], k[0])
+            if kk in cols and abs(cols[kk][j] - x) > 1e-9 * max(1.0, abs(x)):      # the fill re-derives values
+                return "c%d%d at V=%r is %r in the parsed table, %r in the file" % (k + (v, cols[kk][j], x))
+        if l is not None and (j >= len(lattice) or list(lattice[j]) != l):
+            return ("the lattice row held for V=%r is %s, the file lists %s beside that volume (row i of the lattice block "
+                    "belongs to row i of the table)" % (v, lattice[j] if j < len(lattice) else None, l))
+    return None
+
+
 def filled_table(d, cfg):
     """the table the property speaks about: parsed file, crystal-system filling applied first"""
     import cij.io.traditional
@@ -257,7 +287,8 @@ def observe(calc, ds, cfg, d, rng, eigs, consts):
             if a or (ti, vi) in ((nt - 1, 0),):
                 samples.append((k, True, ti, vi, float(adi[k][ti, vi])))
     hdk, h, kb = consts
-    return dict(keys=keys, cols=cols, evols=evols, lattice=lattice, varr=varr, tarr=tarr, cstat=cstat, clat=clat,
+    paired = rows_paired(d, evols, cols, lattice)
+    return dict(paired=paired, keys=keys, cols=cols, evols=evols, lattice=lattice, varr=varr, tarr=tarr, cstat=cstat, clat=clat,
                 cen=cen, qvols=qvols, ens=ens, freq=freq, gam=gam, vdr=vdr, weights=weights, na=ds["qha"]["na"],
                 P=P, cv=cv, mkeys=mkeys, ob_static=ob_static, iso=iso, adi=adi, ph_iso=ph_iso, ph_adi=ph_adi,
                 axial=axial, scale=scale, samples=samples, gpa=float(_to_gpa(1.0)), consts=consts,
@@ -432,6 +463,9 @@ def oracle(ctx, o, cfg, desc):
                     "components computed (%s) are not the components of the %s-filled table (%s)"
                     % (" ".join(map(kstr, o["mkeys"])), cfg["system"], " ".join(map(kstr, want_keys))),
                     input=desc, expected=want_keys, observed=o["mkeys"])
+    if o.get("paired"):
+        ctx.failure("static-rows-paired", "the static table the fit starts from is not the table of the file: " + o["paired"],
+                    input=desc, observed=dict(volumes=o["evols"], lattice=o["lattice"]))
     g = float(GPA_CODATA)
     if abs(o["gpa"] / g - 1) > 1e-7:
         ctx.failure("gpa-factor", "1 Ry/bohr^3 is converted to %r GPa, CODATA 2018 gives %r" % (o["gpa"], g),
@@ -663,6 +697,20 @@ def run(ctx):
         ds = synth.make_dataset(rng, nv=cfg["nv"], nq=cfg["nq"], na=cfg["na"], lattice=cfg["lattice"],
                                 keys=cfg["keys"], spectrum=cfg["spectrum"], table_volumes=cfg["table_volumes"])
         ctx.count("static table volumes: " + cfg["table_volumes"])
+        # the static file may list its rows (table and lattice block alike) in any volume order
+        row_order = ["decreasing", "increasing", "shuffled", "decreasing"][i % 4]
+        if row_order != "decreasing":
+            el = ds["elast"]
+            perm = list(range(len(el["volumes"])))
+            if row_order == "increasing":
+                perm.reverse()
+            else:
+                rng.shuffle(perm)
+            el["volumes"] = [el["volumes"][k] for k in perm]
+            el["rows"] = [el["rows"][k] for k in perm]
+            if el["lattice"]:
+                el["lattice"] = [el["lattice"][k] for k in perm]
+        ctx.count("static table row order: " + row_order)
         d = rd / ("data%02d" % i)
         t0 = time.time()
         try:
